@@ -197,8 +197,7 @@ theorem capsule_max (size ld p : V3 ℝ) (hs : SizeOK .capsule size) (hld : V3.d
   have hc := clampSym_bounds p.z size.y hl
   have h2 := mul_le_abs_mul ld.z (clampSym p.z size.y) size.y hc.1 hc.2
   simp only [localSupp, capsuleLocal]
-  rw [dot_real] at hld h1 ⊢
-  simp only [] at h1
+  simp only [dot_real] at hld h1 ⊢
   have e : ld.x * (ld.x * size.x) + ld.y * (ld.y * size.x) + ld.z * (ld.z * size.x + signed ld.z size.y)
       = size.x * (ld.x * ld.x + ld.y * ld.y + ld.z * ld.z) + ld.z * signed ld.z size.y := by ring
   rw [e, hld, mul_signed]
